@@ -441,16 +441,54 @@ Section Run.
   Definition typed_args (ts : list (bytes * ty)) (args : list val) : bool :=
     (length ts =? length args)%nat && forallb (fun e => has_ty (fst e) (snd (snd e))) (combine args ts).
 
-  Definition step (root : node) (o : op) : option (bytes * bytes * bytes * node) :=
+  (* which part of a raw call's expectation belongs to which property (the same op can occur in every mode):
+       26  everything except well-typed Properties calls (C28's subject)
+       27  the accepted / sent TYPES: the error name of a rejected call and C28's behavioural classes are not its
+           subject; a single-structure return is exempted by the property text
+       28  well-typed Properties calls; an ill-typed one must just be answered with an error
+       33  raw calls are only there to read the state back                                                       *)
+  Definition relax_err (x : expect) : expect :=
+    match x_reply x with
+    | XErr EInvalidArgs None => {| x_reply := XErrAny; x_log := x_log x; x_signals := x_signals x; x_root := x_root x |}
+    | XOpt (XErr EInvalidArgs None) =>
+        {| x_reply := XOpt XErrAny; x_log := x_log x; x_signals := x_signals x; x_root := x_root x |}
+    | _ => x
+    end.
+
+  Definition call_spec (mode : bytes) (root : node) (c : call) : bytes * bytes :=
+    let sp := spec26 bh root c in
+    let r x := match x with Some e => render_expect e | None => dash end in
+    let c28 := match class28 root c with Some x => class28_tok x | None => dash end in
+    if lbeq mode (B "26") then
+      if is_props_call root c then (dash, dash)
+      else (r sp, match class26 root c with Some x => class26_tok x | None => dash end)
+    else if lbeq mode (B "27") then
+      if is_props_call root c then
+        match class28 root c with
+        | Some GetallOmitsFailed | Some ChangedGetterFails => (dash, dash)
+        | _ => (r sp, c28)
+        end
+      else
+        match class26 root c with
+        | Some SingleStructReturn => (dash, dash)
+        | Some InvalidArgsName => (r (option_map relax_err sp), dash)
+        | Some x => (r sp, class26_tok x)
+        | None => (r sp, dash)
+        end
+    else if lbeq mode (B "28") then
+      if is_props_call root c then (r sp, c28)
+      else
+        match target_method root c with
+        | Some (FStd d0, _) => if lbeq (id_name d0) props_name then (r (option_map relax_err sp), dash) else (dash, dash)
+        | _ => (dash, dash)
+        end
+    else (dash, dash).
+
+  Definition step (mode : bytes) (root : node) (o : op) : option (bytes * bytes * bytes * node) :=
     match o with
     | OCall c =>
         let '(ef, root') := dispatch bh root c in
-        let sp := match spec26 bh root c with Some x => render_expect x | None => dash end in
-        let cl := match class26 root c with
-                  | Some x => class26_tok x
-                  | None => if is_props_call root c then match class28 root c with Some x => class28_tok x | None => dash end
-                            else dash
-                  end in
+        let '(sp, cl) := call_spec mode root c in
         Some (render_effects ef, sp, cl, root')
     | OIntro path =>
         match get_child root (segs_of path) with
@@ -522,12 +560,12 @@ Section Run.
         end
     end.
 
-  Fixpoint steps (root : node) (os : list op) : option (list (bytes * bytes * bytes)) :=
+  Fixpoint steps (mode : bytes) (root : node) (os : list op) : option (list (bytes * bytes * bytes)) :=
     match os with
     | [] => Some []
     | o :: r =>
-        match step root o with
-        | Some (m, s, c, root') => match steps root' r with Some l => Some ((m, s, c) :: l) | None => None end
+        match step mode root o with
+        | Some (m, s, c, root') => match steps mode root' r with Some l => Some ((m, s, c) :: l) | None => None end
         | None => None
         end
     end.
@@ -547,7 +585,7 @@ Definition run_case (line : bytes) : outp :=
             if desc_ok d then
               match parse_layout d lt, all_some (map parse_op ops) with
               | Some root, Some os =>
-                  match steps d root os with
+                  match steps d m root os with
                   | Some l => {| o_model := join semi (map (fun e => fst (fst e)) l);
                                  o_spec := join semi (map (fun e => snd (fst e)) l);
                                  o_class := join semi (map snd l) |}
